@@ -55,6 +55,11 @@ type propSpec struct {
 var specs = map[string]propSpec{
 	"C08": {Subs: []sub{{ID: "C08", QuickN: 60000, ThorN: 1500000}}},
 	"C09": {Subs: []sub{{ID: "C09", Race: true, QuickN: 20000, ThorN: 400000}}},
+	"C15": {Subs: []sub{{ID: "C15", Race: true, QuickN: 20000, ThorN: 500000, QuickEnv: []string{"VERIF_SHELL_ORACLE=2000"}, ThorEnv: []string{"VERIF_SHELL_ORACLE=50000"}}}},
+	"C16": {Subs: []sub{
+		{ID: "C16/delivery", Race: true, QuickN: 20000, ThorN: 500000, QuickEnv: []string{"VERIF_SHELL_ORACLE=2000"}, ThorEnv: []string{"VERIF_SHELL_ORACLE=50000"}},
+		{ID: "C16/faults", Race: true, QuickN: 20000, ThorN: 500000},
+	}},
 	"C19": {Subs: []sub{
 		{ID: "C19/A", QuickN: 250000, ThorN: 4000000},
 		{ID: "C19/B", QuickN: 12, ThorN: 30, QuickEnv: []string{"VERIF_C19B_COUNTERS=20000"}, ThorEnv: []string{"VERIF_C19B_COUNTERS=200000"}},
